@@ -168,6 +168,9 @@ class _Skip(Exception):
     pass
 
 
+_OPERAND_NOTES = []
+
+
 def _combine(shape, leaves, ops, counter):
     C = _classes()
     if not isinstance(shape, tuple):
@@ -179,7 +182,12 @@ def _combine(shape, leaves, ops, counter):
     op = ops[counter[0]]
     counter[0] += 1
     if op == "+":
-        return l + r
+        before = [id(a) for a in _walk(l, C)] if isinstance(l, C["Detector"]) else None
+        res = l + r
+        if before is not None and [id(a) for a in _walk(l, C)] != before:
+            _OPERAND_NOTES.append("the left operand of `+` holds %d antennas after the addition, %d before"
+                                  % (len(_walk(l, C)), len(before)))
+        return res
     return operator.iadd(l, r)
 
 
@@ -232,6 +240,7 @@ def _one_tree(seq, shape, ops, use_sum, kw, fails, tag):
         obj, pos = _leaf(kind, i)
         leaves.append(obj)
         expected.extend(pos)
+    del _OPERAND_NOTES[:]
     try:
         if use_sum:
             if not isinstance(leaves[0], C["Detector"]):
@@ -244,6 +253,8 @@ def _one_tree(seq, shape, ops, use_sum, kw, fails, tag):
     if not isinstance(det, C["Detector"]):
         return None
     trans = 1
+    for note in _OPERAND_NOTES:
+        fails.append({"check": "operand-mutated", "what": "%s: %s" % (tag, note), "tags": {"group": "operand-mutated"}, "size": len(seq)})
 
     def fail(check, what):
         fails.append({"check": check, "what": "%s: %s" % (tag, what), "tags": {"group": check}, "size": len(seq)})
